@@ -44,7 +44,7 @@ class FakeTransport:
 
 
 def run_serve(argv: list[str], probe, cwd: str | None = None) -> dict:
-    """`nauyaca serve <argv> --log-level ERROR` with create_server stubbed; `probe(factory)` is awaited in place of
+    """`nauyaca serve <argv> --log-level CRITICAL` with create_server stubbed; `probe(factory)` is awaited in place of
     `serve_forever()`.  -> {"started", "exit", "output", "value" (what the probe returned), "kw" (create_server keywords)}"""
     import asyncio.base_events as be
 
@@ -89,7 +89,10 @@ def run_serve(argv: list[str], probe, cwd: str | None = None) -> dict:
     try:
         if cwd:
             os.chdir(cwd)
-        r = CliRunner().invoke(M.app, ["serve", *argv, "--log-level", "ERROR"])
+        # (log level CRITICAL: the server's loggers are cached on first use together with the stdout of THAT CliRunner
+        # invocation, which is closed afterwards - a later `logger.error(...)` would raise "I/O operation on closed
+        # file" inside the protocol; in a real process stdout stays open)
+        r = CliRunner().invoke(M.app, ["serve", *argv, "--log-level", "CRITICAL"])
     finally:
         if old_cwd:
             os.chdir(old_cwd)
